@@ -70,29 +70,32 @@ type Run struct {
 	TimeLimit time.Duration
 
 	// results
-	mu         sync.Mutex
-	Paths      int
-	Outcomes   map[string]int
-	Violations []Violation
-	Reached    map[string]int
-	Inconcl    map[string]int
-	Asserts    int
-	Instrs     int64
-	Queries    int
-	SolverDur  time.Duration
-	Decisions  int
-	Samples    [][]InputVal
-	SampleObs  []map[string]string
-	FnHits     map[string]int
-	Keys       map[string][]InputVal
-	Truncated  bool
-	Wall       time.Duration
+	mu          sync.Mutex
+	Paths       int
+	Outcomes    map[string]int
+	Violations  []Violation
+	Reached     map[string]int
+	Inconcl     map[string]int
+	Asserts     int
+	Instrs      int64
+	Queries     int
+	SolverDur   time.Duration
+	Decisions   int
+	Samples     [][]InputVal
+	SampleObs   []map[string]string
+	FnHits      map[string]int
+	Keys        map[string][]InputVal
+	Truncated   bool
+	Wall        time.Duration
 	DiffEvery   int
 	DiffSamples []DiffSample
-	PassModels [][]InputVal // sample of passing paths for native cross-replay
-	PassObs    []map[string]string
-	AllObs     []map[string]string // observations of the first few paths, whatever their inputs
-	PassPBytes []map[string][]byte // aligned with PassModels when the run aggregates several parameterisations
+	PassModels  [][]InputVal // sample of passing paths for native cross-replay
+	PassObs     []map[string]string
+	AllObs      []map[string]string // observations of the first few paths, whatever their inputs
+	Probes      [][]InputVal        // witnesses of paths that ended unsupported / out of fuel
+	ProbePBytes []map[string][]byte
+	ProbeParams []map[string]int    // per probe, when the run aggregates several parameterisations
+	PassPBytes  []map[string][]byte // aligned with PassModels when the run aggregates several parameterisations
 }
 
 func (r *Run) fn() *ssa.Function {
@@ -496,6 +499,9 @@ func (r *Run) Explore() {
 				}
 				for _, l := range res.Inconcl {
 					r.Inconcl[l]++
+				}
+				if (res.Outcome == "unsupported" || res.Outcome == "fuel") && len(r.Probes) < 40 {
+					r.Probes = append(r.Probes, res.Sample)
 				}
 				if res.Outcome == "unsupported" || res.Outcome == "fuel" {
 					if r.Inconcl[res.Outcome+": "+res.Detail] <= 1 && !r.Quiet {
